@@ -623,6 +623,7 @@ func (m *Machine) WhenTime(
 	if m.disposed.Load() {
 		return m.subs.Closed
 	}
+	verifhook.Point("sub.checked")
 
 	// close early on invalid
 	if len(states) != len(times) || len(states) == 0 {
@@ -686,6 +687,7 @@ func (m *Machine) WhenQuery(
 	if m.disposed.Load() {
 		return m.subs.Closed
 	}
+	verifhook.Point("sub.checked")
 
 	// locks
 	m.activeStatesMx.Lock()
